@@ -74,9 +74,47 @@ def build(files, targets, tdirs, prefix=(), world=None):
     return w, session(w, cfg, prefix)
 
 
+def spec_required(g, targets, tdirs):
+    """The steps that must run, computed from the generated graph itself (needs and edges as the
+    generator chose them), not from anything the director stored."""
+    needs, edges = g["needs"], g["edges"]
+    n = len(needs)
+    if targets or tdirs:
+        req = {i for i in range(n) if out(i) in targets}
+        req |= {i for i in range(n) if needs[i] == "DEFAULT" and any(out(i).startswith(d) for d in tdirs)}
+    else:
+        req = {i for i in range(n) if needs[i] == "DEFAULT"}
+    changed = True
+    while changed:
+        changed = False
+        for i in list(req):
+            for j in edges[i]:
+                if j not in req:
+                    req.add(j)
+                    changed = True
+    return req
+
+
+def label_index(label, n):
+    for i in range(n):
+        if label.endswith(f"-- {out(i)}") or label == f"./s{i}.py":
+            return i
+    return None
+
+
 def check_fresh(acc, g, targets, tdirs, obs):
     needed = refmodel.required_steps(obs, targets, tdirs)
     executed = set(obs.started)
+    # the same from the generator's own data: which step indices ran
+    n = len(g["needs"])
+    ran = {label_index(s, n) for s in obs.started} - {None}
+    want = spec_required(g, targets, tdirs)
+    if obs.ok() and ran != want:
+        acc.violation(f"C11|{g['needs']}|{g['edges']}|a{g['amended']}s{g['subplan']}|{targets}|{tdirs}|spec",
+                      {"graph": g, "targets": targets, "target_dirs": tdirs,
+                       "ran_not_required": sorted(ran - want), "required_not_run": sorted(want - ran),
+                       "why": "executed steps differ from the need computed from the generated graph"},
+                      {"check": "C11", "graph": g, "targets": targets, "target_dirs": tdirs, "prefix": obs.choices})
     rep = {"check": "C11", "graph": g, "targets": targets, "target_dirs": tdirs, "prefix": obs.choices}
     key = f"C11|{g['needs']}|{g['edges']}|a{g['amended']}s{g['subplan']}|{targets}|{tdirs}"
     if not obs.ok():
